@@ -596,6 +596,8 @@ def correction_cases(ctx, d, photo):
     ckw = {}
     if rnd.random() < 0.5:
         ckw["interpolation_order"] = rnd.choice([0, 1, 2, 3])  # a constructor keyword that shapes the output
+    if rnd.random() < 0.4:
+        ckw["resize_factor"] = rnd.choice([0.5, 2.0])  # adapts the configuration at construction
     out.append(("CurvatureCorrection", lambda: d.CurvatureCorrection(config=ccfg, **ckw), ca, dict(config=ccfg, kwargs=ckw)))
     # IlluminationCorrection
     small = photo[:300, :300].copy()
@@ -649,7 +651,7 @@ def apply_corr(c, arr):
 SAVABLE = ["TypeCorrection", "DriftCorrection", "CurvatureCorrection", "IlluminationCorrection", "ColorCorrection"]
 
 
-def oracle_corrections(ctx, d, tmp):
+def oracle_corrections(ctx, d, tmp, table=None):
     import cv2
 
     photo_path = Path(inspect.getfile(d)).resolve().parents[2] / "examples" / "images" / "baseline.jpg"
@@ -671,13 +673,21 @@ def oracle_corrections(ctx, d, tmp):
                 st["not_constructible"] += 1
                 st.setdefault("example_error", repr(c.exc)[:200])
                 continue
+            # two life cycles: saved right after construction (before the first application: caches still empty), or after
+            # it has been applied once
+            save_first = ctx.rng.random() < 0.5
+            case = dict(case, saved_before_first_application=save_first)
+            p = tmp / f"corr_{name}.npz"
+            c2 = None
+            if save_first:
+                c2 = quiet(lambda: (c.save(p), d.read_correction(p))[1])
             before = quiet(apply_corr, c, arr)
             if isinstance(before, Raised):
                 st["unusable_configuration"] += 1  # persistence is not at stake; counted and thresholded below
                 st.setdefault("example_error", repr(before.exc)[:200])
                 continue
-            p = tmp / f"corr_{name}.npz"
-            c2 = quiet(lambda: (c.save(p), d.read_correction(p))[1])
+            if not save_first:
+                c2 = quiet(lambda: (c.save(p), d.read_correction(p))[1])
             if isinstance(c2, Raised):
                 ctx.fail(f"C18:correction({name}):save-read-raises-{type(c2.exc).__name__}", f"save -> read_correction raises {c2.exc!r}", case)
                 continue
@@ -694,9 +704,12 @@ def oracle_corrections(ctx, d, tmp):
                 g1, g2 = quiet(c.return_config), quiet(c2.return_config)
                 if not isinstance(g1, Raised) and (isinstance(g2, Raised) or not deep_equal(g1, g2)):
                     ctx.fail(f"C18:correction({name}):config-differs", f"return_config() of the reloaded correction differs: {g1!r} vs {g2!r}"[:400], case)
+            reads = set((table or {}).get(name, {}).get("reads", [])) if table else None
             for attr, v in sorted(vars(c).items()):
                 if attr.startswith("_") or attr in ("cache", "use_cache", "cache_path") or not plain(v):
                     continue
+                if reads is not None and attr not in reads and attr != "config":
+                    continue  # only the state correct_array reads (AST table) and the configuration
                 if not (hasattr(c2, attr) and deep_equal(v, getattr(c2, attr))):
                     ctx.fail(f"C18:correction({name}):attribute({attr})", f"attribute {attr} of the reloaded correction differs: "
                              f"{v!r} vs {getattr(c2, attr, '<missing>')!r}"[:400], case)
@@ -911,7 +924,7 @@ def run(ctx):
         constructor_provenance(ctx, d)
         oracle_npz(ctx, d, tmp)
         oracle_write(ctx, d, tmp)
-        oracle_corrections(ctx, d, tmp)
+        oracle_corrections(ctx, d, tmp, t["corr"])
         correction_field_tie(ctx, d, tmp)
     finally:
         shutil.rmtree(tmp, ignore_errors=True)
